@@ -4,6 +4,8 @@
 (b) override specifiers with symbolic path components / values on a fixed valid text;
 (c) include graphs over 3 in-memory resources, cyclic ones included (enumerated).
 Assertion on every feasible path: the load returns or raises a ZConfig.ConfigurationError."""
+import os
+
 import z3
 
 from ..base import Harness
@@ -25,6 +27,14 @@ LINES_T = LINES_Q + [[[7]], [[4], [4]], [['<', 4, '>'], [2], ['</', 3, '>']], [[
                      [['%import ', 4]], [['<ta n>'], [5], ['</ta>'], [3]]]
 
 
+# %include arguments: symbolic tails behind the URL shapes the loader treats differently
+INCL_Q = [['%include ', 2], ['%include package:', 3], ['%include package:', 1, ':', 1],
+          ['%include package:vfq_a:', 2], ['%include //', 2], ['%include http://', 2, '/x'],
+          ['%include ', 1, '#', 1], ['%include b.conf', 2]]
+INCL_T = INCL_Q + [['%include ', 3], ['%include ', 4], ['%include package:', 4], ['%include http://m/', 3],
+                   ['%include //', 3], ['%include ../', 2], ['%include ', 1, ':', 2]]
+
+
 def graphs():
     """include graphs over three resources a, b, c (a is the top); each resource has one key
     line and includes the listed ones"""
@@ -35,6 +45,30 @@ def graphs():
             for c_inc in ([], ['b.conf'], ['nosuch.conf']):
                 out.append({'main.conf': a_inc, 'b.conf': b_inc, 'c.conf': c_inc})
     return out
+
+
+def _sym_path_join(*parts):
+    """posixpath.join on symbolic components"""
+    out = parts[0]
+    for p in parts[1:]:
+        if len(p) > 0 and p.startswith('/'):
+            out = p
+        elif len(out) == 0 or out.endswith('/'):
+            out = out + p
+        else:
+            out = out + '/' + p
+    return out
+
+
+class c12pkgs:
+    """the generated component packages of C12 on sys.path (package vfq_a exists, others do not)"""
+
+    def __enter__(self):
+        from . import c12
+        c12.ensure_packages()
+
+    def __exit__(self, *a):
+        pass
 
 
 class C07(Harness):
@@ -79,10 +113,12 @@ class C07(Harness):
             us.append({'kind': 'text', 'lines': lines})
         for i, g in enumerate(graphs()):
             us.append({'kind': 'include', 'graph': i})
+        for line in (INCL_Q if tier == 'quick' else INCL_T):
+            us.append({'kind': 'inclarg', 'lines': [['kc v'], line]})
         return us
 
     def inputs(self, eng, unit):
-        if unit['kind'] == 'text':
+        if unit['kind'] in ('text', 'inclarg'):
             _, holes = common.build_lines(self, eng, unit['lines'])
             return holes
         if unit['kind'] == 'override':
@@ -96,6 +132,25 @@ class C07(Harness):
                 lines = common.assemble(unit['lines'], inp)
                 with P.mem_resources({}):
                     r = P.run_load(XML['S2'], lines, url=P.MAIN)
+            elif unit['kind'] == 'inclarg':
+                from .. import instr
+                if instr.installed():
+                    instr.install_urllib()
+                    instr.IMPORTS['known'] = ('vfq_a',)
+                    instr.FUNC_STUBS[os.path.join] = _sym_path_join
+                    # a symbolic *path* (no scheme, or a drive-letter look-alike) becomes a quoted
+                    # file: URL of a file that does not exist
+                    import urllib.request
+                    instr.FUNC_STUBS[os.path.abspath] = lambda p: p
+                    instr.FUNC_STUBS[urllib.request.pathname2url] = lambda p: '/opaque-quoted-path'
+                lines = common.assemble(unit['lines'], inp)
+                store = {P.BASE + 'b.conf': ['kc w'], P.BASE + 'ab': ['kc x']}
+                try:
+                    with P.mem_resources(store), c12pkgs():
+                        r = P.run_load(XML['S1'].replace("required=\"yes\"", ''), lines, url=P.MAIN)
+                finally:
+                    instr.IMPORTS['known'] = None
+                    instr.FUNC_STUBS.clear()
             elif unit['kind'] == 'override':
                 specs = common.assemble(unit['spec'], inp)
                 r = P.run_load(XML['S2'], TEXT_S2, overrides=specs, url=P.MAIN)
